@@ -138,7 +138,12 @@ def token_stream(chk, w):
         # first char index skipped once before the zip
         nx = [k for k, e in enumerate(ev) if "CharIndices" in (e[2] or "") and (e[2] or "").endswith("::next")]
         zp = [k for k, e in enumerate(ev) if (e[2] or "").endswith("::zip")]
-        chk.ob("R16.2", "first-index-skipped", len(nx) == 1 and zp and nx[0] < zp[0], "the first character index is not skipped exactly once before zipping with the boundaries", site=C.site(b))
+        # ... or `char_indices().skip(1)` feeding the zip
+        sk = [k for k, e in enumerate(ev) if (e[2] or "").endswith("Iterator::skip") and len(e[3]) > 1 and e[3][1] == absint.I(1)
+              and "char_indices" in nz.value_atom(e[3][0])]
+        skipped = (len(nx) == 1 and not sk) or (len(sk) == 1 and not nx)
+        first = nx[0] if nx else sk[0] if sk else None
+        chk.ob("R16.2", "first-index-skipped", skipped and bool(zp) and first is not None and first < zp[0], "the first character index is not skipped exactly once before zipping with the boundaries", site=C.site(b))
         # final push text.len()
         pushes = [e for e in o.trace if e[0] == "call" and (e[2] or "").endswith("Vec::push")]
         lastp = pushes[-1] if pushes else None
@@ -154,6 +159,23 @@ def token_stream(chk, w):
             d = dict(rv[2])
             chk.ob("R16.2", "stream-initial-state", d.get("offset_to") == absint.I(0) and d.get("position") == absint.I(0) and (d.get("text") == absint.SYM("arg2") or d.get("text") == ("ref", (("A", 2),))),
                    "the token stream does not start at offset 0 / position 0 over the original text", site=C.site(b))
+    # a stream without tokens is returned for the empty text only: every other text goes through the pipeline (a whitespace-only
+    # text has characters, and the tokens must tile it)
+    short = [o for o in rets if not any((e[2] or "").endswith("Predictor::predict") for e in o.trace if e[0] == "call")]
+    oks = []
+    for o in short:
+        emp = [e for e in o.trace if e[0] == "call" and (e[2] or "").endswith("str::is_empty")]
+        # the emptiness test is modelled as a case split on the tested string itself: the input text (argument 2) is known empty here
+        good = o.env.get((("A", 2), ("f", "<empty?>"))) == absint.B(True)
+        for e in emp:
+            r = it.resolve(o, absint.SYM("ret:%d" % e[1]))
+            c_ = o.cons.get("ret:%d" % e[1])
+            if (r == absint.B(True) or (c_ and c_[0] == "eq" and c_[1] == absint.B(True))) and e[3][0] in (absint.SYM("arg2"), ("ref", (("A", 2),))):
+                good = True
+        oks.append(good)
+    chk.ob("R16.2", "token_stream:early-exit-only-for-empty-text", bool(short) and all(oks) if short else True,
+           "token_stream can return a stream without running the pipeline on a path that is not guarded by `text.is_empty()` on the input text itself (%d such path(s)): "
+           "a non-empty text would produce no tokens" % sum(1 for x in oks if not x), site=C.site(b))
     chk.ob("R16.2", "pipeline-order", order_ok, "token_stream does not run prefilter, from_raw, predict, post-filters, offsets in this order", site=C.site(b))
     # boundary loop: push i iff label == WordBoundary
     cf = cfgmod.cfg_of(b)
@@ -218,7 +240,8 @@ def token_stream(chk, w):
         f_tto = st.get("arg1.token.offset_to")
         f_pos = st.get("arg1.position")
         f_tpos = st.get("arg1.token.position")
-        ok = f_from == absint.SYM("m:arg1.offset_to") and f_to is not None and "boundary_pos" in nz.value_atom(f_to) and "[m:arg1.position]" in nz.value_atom(f_to) \
+        ok = f_from == absint.SYM("m:arg1.offset_to") and f_to is not None and "boundary_pos" in nz.value_atom(f_to) and ("[m:arg1.position]" in nz.value_atom(f_to)
+                                                          or re.search(r"::get\(&arg1\.boundary_pos(\.<content>)?, (m:)?arg1\.position\)@Some\.0", nz.value_atom(f_to)) is not None) \
             and f_tto == f_to and f_pos is not None and forms.show(nz.form(f_pos)) == "1 + arg1.position" and f_tpos == absint.SYM("m:arg1.position")
         slices = [C.show_arg(nz, e[3][1]) for e in o.trace if e[0] == "call" and "Index" in (e[2] or "") and len(e[3]) > 1 and e[3][1][0] == "agg" and "Range" in e[3][1][1]]
         ok = ok and len(slices) == 1 and slices[0].startswith("Range{start: arg1.offset_to, end: ")
